@@ -141,6 +141,9 @@ func (c *regexpSimplifyChecker) walk(e syntax.Expr) {
 
 	case syntax.OpGroupWithFlags:
 		out.WriteString("(")
+		if !strings.HasPrefix(e.Args[1].Value, "?") {
+			out.WriteString("?")
+		}
 		out.WriteString(e.Args[1].Value)
 		out.WriteString(":")
 		c.walk(e.Args[0])
